@@ -36,6 +36,7 @@ fn staircase_tail(r: usize) -> Vec<Vec<bool>> {
     t
 }
 
+#[allow(dead_code)]
 fn bitmat_from(d: &[Vec<bool>]) -> BitMat {
     let mut m = BitMat::zero(d.len(), d.first().map_or(0, |x| x.len()));
     for (i, r) in d.iter().enumerate() {
@@ -99,11 +100,23 @@ pub fn strategy(maxdim: usize) -> BoxedStrategy<Case> {
             let h0 = bits(r * k);
             let m: BoxedStrategy<(Mat, &'static str)> = match class {
                 0 | 1 => h0.prop_map(move |h0| (assemble(&h0, k, &staircase_tail(r)), "staircase")).boxed(),
-                2 => (h0, any::<u16>(), any::<u16>(), 0..4u8)
+                2 => (h0, any::<u16>(), any::<u16>(), 0..6u8)
                     .prop_map(move |(h0, a, b, kind)| {
                         let mut t = staircase_tail(r);
                         let (i, j) = (idx(a, r), idx(b, r));
                         match kind {
+                            // two cooperating deviations: an extra one in row 0 and a missing
+                            // staircase entry elsewhere (the count of ones stays 2r-1)
+                            4 | 5 if r >= 2 => {
+                                let jj = 1 + idx(b, r - 1);
+                                t[0][jj] = true;
+                                let ii = 1 + idx(a, r - 1);
+                                if kind == 4 {
+                                    t[ii][ii] = false;
+                                } else {
+                                    t[ii][ii - 1] = false;
+                                }
+                            }
                             // one extra or one missing entry anywhere in the tail
                             0 | 1 => t[i][j] = !t[i][j],
                             // staircase shifted by one column (wraps)
@@ -242,7 +255,7 @@ pub fn property() -> Property {
         subs: vec![Box::new(Sub {
             name: "encoder",
             rule: "H with 1 <= r <= n <= 16 (thorough 48) built by class: exact staircase tail + random H0; near-staircase (one toggled tail cell anywhere incl. row 0, staircase shifted by one column); [A | P L U] with a random invertible tail; uniform dense; singular tail by construction (duplicated column, zero column, a row equal to the sum of two others); square (k = 0); single row. Oracle: own GF(2) rank of the last r columns decides Ok / Err(SubmatrixNotInvertible), never a panic; for Ok all 2^k messages (k <= 8) or 64 pseudo-random ones: length n, first k symbols = message, own H c = 0, encode(0) = 0, linearity on consecutive pairs. Non-trivial = (k >= 1, r >= 2, invertible tail) or (singular tail, r >= 2); inner = encoded messages",
-            cases: |t| t.pick(20_000, 500_000),
+            cases: |t| t.pick(300_000, 6_000_000),
             strategy: |t| strategy(t.pick(16, 48)),
             check,
             health: &[("staircase", 0.15), ("near-staircase", 0.08), ("dense-invertible", 0.15), ("singular", 0.15), ("square", 0.05)],
